@@ -325,7 +325,10 @@ def scrape_own():
     pb = re.sub(r"//.*", "", read("tests/cpp/proxy_base.hpp"))
     m = re.search(r"void consume\(.*?\{(.*?)\n  \}", pb, re.S)
     cb = m.group(1) if m else ""
-    facts["cpp_consume_skips_same_object"] = bool(re.search(r"if \(me_\.invoke != rhs\.invoke \|\| me_\.context != rhs\.context\)", cb)) and "else" not in cb
+    facts["cpp_consume_skips_same_object"] = bool(re.search(r"if \(me_\.invoke != rhs\.invoke \|\| me_\.context != rhs\.context\)", cb))
+    facts["cpp_consume_releases_duplicate"] = bool(re.search(r"\}\s*else if \(!Object_isNull\(rhs\)\)\s*\{[^}]*Object_release\(rhs\);", cb, re.S))
+    if "else" in cb and not facts["cpp_consume_releases_duplicate"]:
+        problems.append("ProxyBase::consume: unrecognised else branch")
     return facts, problems
 
 
